@@ -12,11 +12,12 @@ import (
 // position of a body, definitions and rebinding, bind, dictionary stack
 // shapes.
 type control struct {
-	t      *rapid.T
-	trace  int64
-	feat   map[string]bool
-	budget int
-	names  []string
+	handlers int
+	t        *rapid.T
+	trace    int64
+	feat     map[string]bool
+	budget   int
+	names    []string
 }
 
 func (g *control) draw(n int, label string) int {
@@ -72,7 +73,7 @@ func (g *control) proc(depth int, inLoop bool) psref.Tok {
 
 func (g *control) stmt(depth int, inLoop, first, last bool) []psref.Tok {
 	g.budget--
-	k := g.draw(35, "stmt")
+	k := g.draw(36, "stmt")
 	switch {
 	case k < 5:
 		return []psref.Tok{g.tr()}
@@ -231,6 +232,49 @@ func (g *control) stmt(depth int, inLoop, first, last bool) []psref.Tok {
 		default:
 			return []psref.Tok{psref.TL(name), psref.TX("load"), psref.TX("exec")}
 		}
+	case k == 35:
+		// A procedure stored in errordict under an error name, then an
+		// operator that raises this error: the handler runs in place of the
+		// operator - it may end normally (execution goes on behind the failed
+		// operator), leave the enclosing loop with exit, or stop the program.
+		// The handler starts with cleartomark and the failing operator stands
+		// behind a mark, so that the operands an implementation leaves behind
+		// do not matter.
+		if g.handlers >= 3 {
+			return []psref.Tok{g.tr()}
+		}
+		g.handlers++
+		g.feat["errordict-handler"] = true
+		errName, fail := "rangecheck", []psref.Tok{psref.TS([]byte("abc")), psref.TI(7), psref.TX("get")}
+		if g.draw(2, "handlererr") == 0 {
+			errName, fail = "typecheck", []psref.Tok{psref.TI(1), psref.TS([]byte("x")), psref.TX("mul")}
+		}
+		h := []psref.Tok{psref.TX("cleartomark"), g.tr()}
+		switch g.draw(5, "handlerend") {
+		case 0:
+			if inLoop {
+				g.feat["exit"] = true
+				g.feat["handler-exit"] = true
+				h = append(h, psref.TX("exit"))
+			}
+		case 1:
+			if g.draw(2, "handlerstop") == 0 {
+				g.feat["stop"] = true
+				g.feat["handler-stop"] = true
+				h = append(h, psref.TX("stop"))
+			}
+		case 2:
+			if inLoop {
+				g.feat["exit"] = true
+				g.feat["handler-exit"] = true
+				h = append(h, psref.TP(psref.TX("exit")), psref.TX("exec"))
+			}
+		case 3:
+			h = append(h, g.proc(depth+1, inLoop), psref.TX("exec"))
+		}
+		toks := []psref.Tok{psref.TX("errordict"), psref.TL(errName), psref.TP(h...), psref.TX("put"), g.tr(), psref.TX("mark"), g.tr()}
+		toks = append(toks, fail...)
+		return append(toks, g.tr())
 	case k == 34:
 		// A name whose value is an executable name (taken out of a procedure
 		// body with get): executing it executes that name in turn, through the
